@@ -17,7 +17,7 @@ META = dict(
     bounds=dict(
         quick="targets fchk, molden, molekel, wfn, wfx through api.dump_one; 2 atoms (incl. an ECP centre for formats that "
               "store core charges); shell lists: s+p, three shells in unsorted centre order, Cartesian d, pure d, SP, "
-              "generalized [s,s]; conventions: the target's own, HORTON2, reversed+sign-flipped; orbitals restricted "
+              "generalized [s,s]; conventions: the target's own, HORTON2, reversed+sign-flipped, sign flip on every second label plus rotation; orbitals restricted "
               "closed-shell with a virtual, ROHF, unrestricted, occs_aminusb, an empty orbital below an occupied one; allow_changes in {False, True}; all MO coefficients, "
               "orbital energies, contraction coefficients (and coordinates for wfn/wfx/fchk) symbolic; exponents from a "
               "rational grid; the written text is read back with the real reader and both objects are compared as "
@@ -293,8 +293,10 @@ def jobs(tier):
     fmts = ("fchk", "molden", "molekel", "wfn", "wfx")
     for fmt in fmts:
         for shells in ("sp", "unsorted", "dcart", "dpure", "SP", "gen") + (("fcart", "big") if tier == "thorough" else ()):
-            for conv in ("own", "horton2", "revflip") + (("cca",) if tier == "thorough" else ()):
+            for conv in ("own", "horton2", "revflip", "partflip") + (("cca",) if tier == "thorough" else ()):
                 if conv != "own" and shells in ("SP", "gen") and tier == "quick":
+                    continue
+                if conv == "partflip" and shells in ("sp", "dcart") and tier == "quick":
                     continue
                 out.append(job("C01", f"convert[{fmt},{shells},{conv}]", M, "h_convert", dict(fmt=fmt, shells=shells, conv=conv),
                                budget_s=300 if tier == "quick" else 2400, max_validate=2, oblige_timeout_ms=30000))
